@@ -71,6 +71,7 @@ func runHarness(P *Program, h *Harness, opt solveOpts) (res *HarnessResult) {
 	start := time.Now()
 	res = &HarnessResult{H: h}
 	E := NewEngine(P)
+	E.started = time.Now()
 	res.E = E
 	E.harness = h
 	E.tb.useStrings = h.Strings
